@@ -1315,7 +1315,7 @@ Proof.
   destruct o as [k r|k r c|k r l|k r l h|r i p|r i p|r i p|r i p|r i g|r i|r sd|r sd u|r sd
                 |r sd f|r i|r i|r i u|r|r|r f|r a script e|r a script e|r a script e
                 |r a script e|r a script e|r|r sd|r|r l h|dst src|r|src dst|src dst|ra rb|src k dst
-                |k r l|r n|r n|r|r|n o];
+                |k r l|r n|r n|r|r|r|n o];
     try destruct sd;
     cbn [Machine.step1 closures_ok limits_ok] in *.
   all: try (destruct (getreg m r) as [ [k s]|] eqn:Hr; [|by apply post_same];
@@ -1459,6 +1459,12 @@ Proof.
   - (* OTryReserve *) unfold try_reserve. destruct (decide _); by apply post_set.
   - (* OShrink *) by apply post_set.
   - (* OCapacity *) by apply post_same.
+  - (* ODebug *) destruct (forallb _ _) eqn:Hfa; [by apply post_same|].
+    exfalso. apply not_true_iff_false in Hfa. apply Hfa. apply forallb_forall.
+    intros i Hi. apply bool_decide_eq_true.
+    apply elem_of_list_In, elem_of_list_lookup in Hi as [p Hp].
+    destruct Hinv as ((Hm' & (Hh & Hq & H1 & H2) & _) & _).
+    pose proof (H1 _ _ Hp) as Hqi. apply lookup_lt_Some in Hqi. lia.
   - (* OFuse *) by apply post_same.
 Qed.
 
